@@ -506,6 +506,10 @@ class World:
         """model a member access on a non-Obj base.  Return Ref/value or NOT_HANDLED."""
         return NOT_HANDLED
 
+    def address_of(self, it, ref):
+        """&lvalue: a world that models contiguous storage may return an iterator into it"""
+        return NOT_HANDLED
+
     def sym_binop(self, op, a, b):
         raise AnalysisBroken("abstract value used in an un-whitelisted operation: %r %s %r" % (a, op, b))
 
@@ -930,7 +934,8 @@ class Interp:
                 return self.rv(v).deref()       # pointer-typed iterator into a modelled sequence
             return v
         if op == "&":
-            return v
+            a = self.world.address_of(self, v)
+            return v if a is NOT_HANDLED else a
         x = self.rv(v)
         if op == "!":
             return not self.truth(x, e["e"])
@@ -1329,6 +1334,21 @@ class Interp:
             if isinstance(a, (int, float)):
                 return math.sqrt(a)
             return self.world.sym_unop("sqrt", a)
+        if bn == "std::accumulate" and len(args_n) in (3, 4) and isinstance(V(0), Iter) and isinstance(V(1), Iter) \
+                and V(0).seq is V(1).seq and V(0).step == 1:
+            acc_ = V(2)
+            for i_ in range(V(0).pos, V(1).pos):
+                if i_ < 0 or i_ >= len(V(0).seq):
+                    raise OutOfRange("interp: std::accumulate reads past the end at %s" % fr.fn.loc(e))
+                x_ = V(0).seq[i_]
+                if len(args_n) == 4:
+                    f_ = V(3)
+                    if not isinstance(f_, Closure):
+                        raise AnalysisBroken("interp: std::accumulate with the callable %r" % (f_,))
+                    acc_ = self.rv(self.call_closure(f_, [acc_, x_], e))
+                else:
+                    acc_ = self.arith("+", acc_, x_)
+            return acc_
         if bn in ("std::for_each", "std::all_of", "std::any_of", "std::none_of", "std::count_if", "std::find_if",
                   "std::copy_if", "std::transform", "std::copy_n", "std::for_each_n") and len(args_n) >= 3:
             a = V(0)
